@@ -7,14 +7,26 @@
     interpretation with one warning directly after each offending event, and accepts (Proofs/Sim4-5, mode false).
     The same for COMMANDS and RESPONSES (Proofs/Sim7-10.v; tables passing [msg_tables_ok]).
     and for STREAMS below the model's loop bound (Proofs/Sim11.v): [C08_values_only_every_root].
-    NOT PROVED: that warn mode never aborts and that after a recovered overrun every byte is
-    shown, skipped or listed (both were false of the pinned commit, see the fixed entries of known_findings.json);
-    decided by the oracle (no escaping exception other than the two allowed ValueConstraintViolatedErrors; tiling
-    recomputed from events and warnings) and the model correspondence in warn mode.
+    (never aborts) [C08_never_aborts_every_root]: for EVERY byte string and EVERY root - any non-union structure type
+    of the tables, commands, responses with any command code or none, streams below the model's loop bound - on tables
+    passing the checks (the regenerated ones do by computation) warn-mode decoding runs to the end of the input
+    (every problem a warning) or raises a value error that is not a type-range error: an unknown command code, a
+    missing command code, a selector that selects no member.  It never raises a size error, depleted or superfluous,
+    never fails internally, never reaches a loop bound.  ([Proofs/Warn1-4.v]: a Hoare logic with an exceptional
+    post-condition - a run that ends with Exceeded for a live listed region has charged the enclosing regions exactly
+    the bytes read, skipped ones included, and finished the region and those inside it - so that every handler resumes
+    in a state in which the invariant of completed runs holds again; completed runs charge every live listed region
+    exactly the bytes read in warn mode, too; the own region of a byte buffer cannot be overrun; each iteration of the
+    session loop and of the stream loop consumes input.)  The proof found F20 (a response without a known command
+    code raised NameError; fixed in /repo).
+    NOT PROVED: that after a recovered overrun or shortfall every input byte is shown in a field, skipped as the
+    reported tail or listed in the final error (the exact-charging invariant is the arithmetic core of it); decided
+    by the oracle (tiling recomputed from events and warnings) and the model correspondence in warn mode.
     Statement file: theorem statements, [exact], Print Assumptions only. *)
 From Coq Require Import ZArith List String Bool.
 From TV Require Import Layout.Types gen.Tables gen.Pinned Model.Monad Model.Constraints Model.Message Model.Pump Spec.Value Spec.Message
-  Model.Show Proofs.Account Proofs.Tiling Proofs.OpLemmas Proofs.Agree Proofs.Sim5 Proofs.Sim10 Proofs.Sim11 Properties.C20.
+  Model.Show Proofs.Account Proofs.Tiling Proofs.OpLemmas Proofs.Agree Proofs.Sim5 Proofs.Sim10 Proofs.Sim11 Proofs.Safe1 Proofs.Safe3
+  Proofs.Warn2 Proofs.Warn3 Proofs.Warn4 Properties.C20.
 Import ListNotations.
 Open Scope Z_scope.
 
@@ -81,3 +93,26 @@ Example C08_example_bad_alg :
   exists t evs, find_type Pinned.T "S" "TPMI_ALG_HASH" = Some t /\
     spec_lenient Pinned.T (RType t) [18; 52] = Some evs /\ existsb is_warning (map fst evs) = true.
 Proof. eexists _, _. split; [vm_compute; reflexivity|]. split; vm_compute; reflexivity. Qed.
+
+(** never aborts: every root, every byte string *)
+Theorem C08_never_aborts_every_root :
+  forall T r bs, msg_safe T = true -> msg_b2 T = true -> root_safe_w r -> Forall Bytes.isbyte bs -> within_bound r bs ->
+    warn_outcome_ok (snd (decode T false r bs)).
+Proof. intros T r bs Hs Hb. exact (any_root_never_aborts T Hs Hb r bs). Qed.
+Print Assumptions C08_never_aborts_every_root.
+
+(** the premises hold of the regenerated tables: the message checks, and every decodable (non-union) type *)
+Theorem C08_tables_checks :
+  msg_safe Tables.T && msg_b2 Tables.T &&
+  forallb (fun nt => is_union (snd nt) || (safe_ty (snd nt) && bytes2b (snd nt))) (types Tables.T) = true.
+Proof. vm_compute. reflexivity. Qed.
+Print Assumptions C08_tables_checks.
+
+(** non-vacuity: a command whose commandSize is smaller than its header is abandoned with a warning and accepted; the
+    response that follows has no command code and decoding raises the value error for it (the F20 input); a command
+    with an oversized inner size runs to the end with warnings *)
+Example C08_example_never_aborts :
+  snd (decode Tables.T false RStream [128;1;0;0;0;6]) = OAccepted /\
+  (match snd (decode Tables.T false RStream [128;1;0;0;0;6;128;1;0;0;0;10;0;0;0;0]) with ORaised (EValue _ _ _ VSNoCommand) _ => True | _ => False end) /\
+  snd (decode Tables.T false RCommand [128;1;0;0;0;12;0;0;1;123;255;255]) = OAccepted.
+Proof. vm_compute. repeat split. Qed.
